@@ -32,6 +32,18 @@ def _mk_dist(off, soff):
     return distribution(wrap_sampler(sampler, name=f"tri{off}{soff}"), wrap_logpdf(logpdf), name=f"tri{off}{soff}")
 
 
+def _mk_dist_event(off, soff):
+    """the tri-distribution over a VECTOR value with a scalar log density (event-shaped: the last axis is the event axis)."""
+    def sampler(key, script, par, sample_shape=()):
+        v = (jnp.asarray(script) + soff) % K
+        return jnp.broadcast_to(v, tuple(sample_shape) + jnp.shape(v))
+
+    def logpdf(x, script, par):
+        return jnp.sum(ROWS[(par + off) % K, x], axis=-1)
+
+    return distribution(wrap_sampler(sampler, name=f"trie{off}{soff}"), wrap_logpdf(logpdf), name=f"trie{off}{soff}")
+
+
 def ev(e, arg, env):
     op = e[0]
     if op == "arg":
@@ -100,6 +112,10 @@ class Builder:
             out = _mk_dist_real(G["off"]) if self.real else _mk_dist(G["off"], G["soff"])
         elif k == "fn":
             out = self._mk_fn(name, G, role)
+        elif k == "vmap" and G.get("as_site") and G.get("as_event"):
+            # an event-shaped address: vector value, ONE log density
+            C = self.GF[G["callee"]]
+            out = _mk_dist_event(C["off"], C["soff"])
         elif k == "vmap" and G.get("as_site"):
             # an array-valued address: the callee distribution called once with vector parameters
             out = self.build(G["callee"])
